@@ -53,7 +53,7 @@
                 (points carry unique first coordinates) and the difference is reported (key correspondence-init).
   stream F8   : HypervolumeIndicator WITHOUT reference point (separate stream, stable key
                 contribution:no-reference-k-too-large)."""
-import os, sys, re, math, itertools
+import os, sys, random, re, math, itertools
 sys.path.insert(0, os.path.dirname(os.path.abspath(__file__)))
 from vlib import *
 
@@ -744,6 +744,10 @@ def f_dtlz2(x, m):
 
 REFVAL = {"ZDT1": 12, "ZDT2": 12, "ZDT3": 12, "ZDT6": 12, "DTLZ1": 1000, "DTLZ2": 6, "DTLZ4": 6, "DTLZ7": 60}
 
+# two kinds per function: a reference only the early population exceeds, and one that CUTS the Pareto front (the extreme points of
+# the converged front stay beyond it for ever)
+TIGHTREF = {"ZDT1": [2, 0.75], "ZDT2": [2, 0.75], "ZDT3": [2, 0.75], "ZDT6": [3, 0.75], "DTLZ1": [100, 0.375], "DTLZ2": [2, 0.875], "DTLZ4": [2, 0.875], "DTLZ7": [12, 12]}
+
 def gen_O(rng, big):
     cases = []
     algs = ["MOCMA", "SSMOCMA", "SMSEMOA", "NSGA2", "NSGA2C", "NSGA2E", "NSGA3", "MOEAD", "RVEA"]
@@ -761,6 +765,14 @@ def gen_O(rng, big):
                 seed = rng.randint(1, 10 ** 6)
                 useref = 1 if alg in ("SSMOCMA", "SMSEMOA", "MOCMA", "NSGA2") else 0
                 cases.append("O %s %s %d %d %d %d %d %d %d" % (alg, fn, nobj, nvar, mu, seed, steps, useref, REFVAL[fn]))
+    # TIGHT reference points: part of the population lies beyond the reference point (legal and common: such points dominate no volume).
+    # SMS-EMOA only (bounded operators, no penalty term): the hypervolume w.r.t. the fixed reference must still never decrease
+    trng = random.Random(rng.randint(1, 10 ** 9))
+    for _ in range(12 if big else 5):
+        for nobj in (2, 3):
+            fn = trng.choice(fns2 if nobj == 2 else fns3); nvar = trng.randint(nobj + 1, 5); mu = trng.choice([4, 5, 8, 12])
+            cut = trng.random() < 0.7
+            cases.append("O SMSEMOA %s %d %d %d %d %d 1 %r" % (fn, nobj, nvar, mu, trng.randint(1, 10 ** 6), trng.choice([300, 600, 1000] if cut else [80, 200]), TIGHTREF[fn][1 if cut else 0]))
     return cases
 
 def parse_O(text):
@@ -823,11 +835,17 @@ def monitor_O(case, hdr, gens, status):
         if bad: break
         if alg in STEADY_HV:
             vals = [e[1] for e in els]
-            if any(a >= r for p in vals + (pen or []) for a, r in zip(p, ref)): notes["ref_not_dominated"] = True; continue
-            h = hv(vals, ref); hp = hv(pen, ref) if pen else None
+            if any(a >= r for p in vals + (pen or []) for a, r in zip(p, ref)):
+                notes["ref_not_dominated"] = True
+                if alg != "SMSEMOA": continue
+                # points that do not strictly dominate the reference point dominate no volume: they are left out of the measure
+                vals = [p for p in vals if all(a < r for a, r in zip(p, ref))]
+                pen = [p for p in pen if all(a < r for a, r in zip(p, ref))] if pen else pen
+                notes["tight_reference_generations"] = notes.get("tight_reference_generations", 0) + 1
+            h = hv(vals, ref) if vals else 0.0; hp = (hv(pen, ref) if pen else 0.0) if pen is not None else None
             if prev_hv is not None:
                 if useref:
-                    if hp is not None and hp < prev_hp - 1e-12 * abs(prev_hp):
+                    if hp is not None and prev_hp is not None and hp < prev_hp - 1e-12 * abs(prev_hp):
                         bad.append("generation %d: hypervolume of the population (penalized fitness, reference %s = indicator reference) decreased %.17g -> %.17g" % (g, ref, prev_hp, hp)); break
                     if h < prev_hv - 1e-12 * abs(prev_hv):
                         outside = any(not e[3] for e in els) or prev_outside
